@@ -100,6 +100,8 @@ class Real:
         self.reactions = {}
         self.armed = set()
         real = self
+        # every second client and the catch-all device are "empty containers" (falsy)
+        self.falsy = set(uni.clients[1::2]) | {d for d in uni.devices if d == "*"}
 
         def react(side, eid, endpoint, message):
             r = real.reactions.get((side, eid))
@@ -121,6 +123,11 @@ class Real:
                 log.append(("dev", s.did, message))
                 react("dev", s.did, s, message)
 
+            def __len__(s):
+                # an endpoint may be a container that is empty right now (a client that knows no device yet, a device pool
+                # without members): it is still an endpoint - the router must go by identity, never by truth value
+                return 0 if s.did in real.falsy else 1
+
         class RecClient(Client):
             def __init__(s, cid):
                 s.cid = cid
@@ -128,6 +135,9 @@ class Real:
             def message_from_device(s, message):
                 log.append(("cli", s.cid, message))
                 react("cli", s.cid, s, message)
+
+            def __len__(s):
+                return 0 if s.cid in real.falsy else 1
 
         self.RecDevice, self.RecClient = RecDevice, RecClient
         self.dev = {}
@@ -219,7 +229,7 @@ def state_ops(uni, model):
     return ops
 
 
-def send_ops(uni, model, extra_names=("U",)):
+def send_ops(uni, model, extra_names=("U", "")):
     """Operations that do not change the router state: the probe suite."""
     ops = []
     cnames = list(uni.names) + [None] + list(extra_names)
